@@ -22,14 +22,14 @@ def errRange : Reject := .error "Invalid bit-range. Expected x..=y"
 def errNumber : Reject := .error "Not a valid number in bitrange."
 
 /-- `take_literal` -/
-def AP.takeLiteral (st : AP) (lit : String) : Except Reject AP :=
+def AP.takeLiteral (st : AP) (lit : Option Nat) : Except Reject AP :=
   match st with
   | .reset | .resetOnlyRangeAllowed =>
-      match parseUsize lit with | some n => .ok (.rangeGotLowerLimit n) | none => .error errNumber
+      match lit with | some n => .ok (.rangeGotLowerLimit n) | none => .error errNumber
   | .rangeGotEquals lower =>
-      match parseUsize lit with | some n => .ok (.rangeGotBothLimits lower n) | none => .error errNumber
+      match lit with | some n => .ok (.rangeGotBothLimits lower n) | none => .error errNumber
   | .hasStrideEquals =>
-      match parseUsize lit with | some n => .ok (.strideComplete n) | none => .error errNumber
+      match lit with | some n => .ok (.strideComplete n) | none => .error errNumber
   | _ => .error errRange
 
 /-- `take_punct` -/
@@ -189,67 +189,100 @@ def maxEnd (rs : List Rng) : Nat := rs.foldl (fun a r => max a (r.lo + r.len)) 0
 def nativeOfScalar (size : Nat) (signed : Bool) : ITy :=
   if signed then ITy.signedOf size else ITy.unsignedOf size
 
+/-- what the field's *type* tells the macro: `parse_scalar_field` and `parse_enumeration` -/
+structure TyInfo where
+  fromDT : Option Nat        -- field_type_size_from_data_type (`some 0` = bool)
+  isSigned : Bool
+  custom : Option CustomTy   -- `CustomType::Yes(T)` (exactly when `fromDT = none`)
+  deriving Repr, DecidableEq, Inhabited
+
 /-- `resolve` maps the path of a custom type to the user-type number (the corpus' type table);
     it stands for the identity of `syn::Type` values and is not part of the macro. -/
-def parseField (resolve : List String → Nat) (baseDataSize : Nat) (f : FieldSyn) : Except Reject FieldDef := do
-  -- `length.parse::<usize>().unwrap_or_else(|_| panic!(…))`
-  if (match f.count with | some c => decide (c ≥ 2 ^ 64) | none => false) then
-    .error (.macroPanic "array length is not a valid number") else
-  let (fromDT, isSigned) ← parseScalarField f.ty
-  let unsignedFieldType : Option ITy :=
-    if isSigned then some (ITy.unsignedOf (fromDT.getD 0)) else none
-  let (ps, docs) ← parseAttrs f.count.isSome f.attrs {} 0
-  let ranges := ps.ranges
-  let numberOfBits := sumLens ranges
-  if numberOfBits ≥ 2 ^ 64 then .error (.macroPanic "attempt to add with overflow") else
-  let (fieldTypeSize, primitiveType) ← (match fromDT with
-    | none => match primitiveByWidth numberOfBits with
-        | some p => .ok (numberOfBits, p)
-        | none => .error (.macroPanic "number_of_bits is too large!")
-    | some b => .ok (b, nativeOfScalar b isSigned) : Except Reject (Nat × ITy))
-  if fieldTypeSize = BITCOUNT_BOOL then
-    (if numberOfBits ≠ 1 ∨ ranges.length ≠ 1 then
-      (if ranges.isEmpty then .error (.macroPanic "index out of bounds: ranges[0]")
-       else .error (.error "Field is a bool, so it should only use a single bit"))
-     else pure ())
-  else if numberOfBits ≠ fieldTypeSize then
-    .error (.error "Field type doesn't match the number of bits that are being used for it")
-  else pure ()
-  -- Verify bounds
-  let stride ← (match f.count with
-    | some indexedCount => do
-        let stride ← (if ranges.length = 1 then
-            let s := ps.indexedStride.getD numberOfBits
-            if numberOfBits > s then .error (.error "Field is larger than the stride") else .ok s
-          else match ps.indexedStride with
-            | none => .error (.error "Field is declared as non-contiguous and array, so it needs a stride")
-            | some s => .ok s : Except Reject Nat)
-        if indexedCount = 0 then .error (.macroPanic "attempt to subtract with overflow") else
-        let numberOfBitsIndexed := (indexedCount - 1) * stride + maxEnd ranges
-        if numberOfBitsIndexed ≥ 2 ^ 64 then .error (.macroPanic "attempt to multiply/add with overflow") else
-        if numberOfBitsIndexed > baseDataSize then .error (.error "Array-field requires more bits than the bitfield has") else
-        if indexedCount < 2 then .error (.error "Field is declared as array, but with fewer than 2 elements") else
-        .ok (some stride)
+def typeInfo (resolve : List String → Nat) (ty : TySyn) : Except Reject TyInfo :=
+  match parseScalarField ty with
+  | .error r => .error r
+  | .ok (fromDT, isSigned) =>
+    match fromDT with
+    | some _ => .ok { fromDT := fromDT, isSigned := isSigned, custom := none }
     | none =>
-        if maxEnd ranges > baseDataSize then .error (.error "Field requires more bits than the bitfield has")
-        else .ok none : Except Reject (Option Nat))
-  -- parse_enumeration
-  let custom ← (match fromDT with
-    | some _ => .ok none
-    | none =>
-      match f.ty.segs.getLast?, f.ty.lastArgs with
-      | some "Option", some [arg] => .ok (some { ty := resolve arg, isOption := true })
+      -- parse_enumeration
+      match ty.segs.getLast?, ty.lastArgs with
+      | some "Option", some [arg] => .ok { fromDT := none, isSigned := isSigned, custom := some { ty := resolve arg, isOption := true } }
       | some "Option", some _ => .error (.error "Invalid Option<T> path. Expected exactly one generic type argument")
       | some "Option", none => .error (.macroPanic "Expected < after Option")
-      | _, _ => .ok (some { ty := resolve f.ty.segs, isOption := false }) : Except Reject (Option CustomTy))
-  let useRegularInt := match fromDT with
-    | some i => isIntSizeRegularType i
-    | none => numberOfBits ≠ 1 && isIntSizeRegularType numberOfBits
-  .ok {
-    name := f.name, ranges := ranges, unsignedFieldType := unsignedFieldType,
-    array := match f.count, stride with | some c, some s => some (c, s) | _, _ => none,
-    fieldTypeSize := fieldTypeSize, getter := ps.provideGetter, setter := ps.provideSetter,
-    fromDataType := fromDT, useRegularInt := useRegularInt, primitiveType := primitiveType,
-    custom := custom, docs := docs }
+      | _, _ => .ok { fromDT := none, isSigned := isSigned, custom := some { ty := resolve ty.segs, isOption := false } }
+
+/-- `field_type_size` -/
+def fieldTypeSizeOf (ti : TyInfo) (numberOfBits : Nat) : Nat := ti.fromDT.getD numberOfBits
+
+/-- `primitive_type` -/
+def primitiveTypeOf (ti : TyInfo) (numberOfBits : Nat) : ITy :=
+  match ti.fromDT with
+  | none => (primitiveByWidth numberOfBits).getD .u128
+  | some b => nativeOfScalar b ti.isSigned
+
+/-- the stride of an array field: the given one, or the width for a single range -/
+def strideOf (ps : PState) (numberOfBits : Nat) : Nat :=
+  if ps.ranges.length = 1 then ps.indexedStride.getD numberOfBits else ps.indexedStride.getD 0
+
+/-- the first check of `parse_field` (after the attributes have been read) that fails, in the order of the code;
+    `none` = the field is accepted -/
+def firstError (baseDataSize : Nat) (ti : TyInfo) (count : Option Nat) (ps : PState) : Option Reject :=
+  let ranges := ps.ranges
+  let n := sumLens ranges
+  if n ≥ 2 ^ 64 then some (.macroPanic "attempt to add with overflow")
+  else if ti.fromDT = none ∧ n > 128 then some (.macroPanic "number_of_bits is too large!")
+  else if fieldTypeSizeOf ti n = BITCOUNT_BOOL ∧ (n ≠ 1 ∨ ranges.length ≠ 1) then
+    (if ranges.isEmpty then some (.macroPanic "index out of bounds: ranges[0]")
+     else some (.error "Field is a bool, so it should only use a single bit"))
+  else if fieldTypeSizeOf ti n ≠ BITCOUNT_BOOL ∧ n ≠ fieldTypeSizeOf ti n then
+    some (.error "Field type doesn't match the number of bits that are being used for it")
+  else match count with
+  | some indexedCount =>
+    -- Verify bounds for arrays
+    if ranges.length = 1 ∧ n > strideOf ps n then some (.error "Field is larger than the stride")
+    else if ranges.length ≠ 1 ∧ ps.indexedStride = none then
+      some (.error "Field is declared as non-contiguous and array, so it needs a stride")
+    else if indexedCount = 0 then some (.macroPanic "attempt to subtract with overflow")
+    else if (indexedCount - 1) * strideOf ps n + maxEnd ranges ≥ 2 ^ 64 then some (.macroPanic "attempt to multiply/add with overflow")
+    else if (indexedCount - 1) * strideOf ps n + maxEnd ranges > baseDataSize then
+      some (.error "Array-field requires more bits than the bitfield has")
+    else if indexedCount < 2 then some (.error "Field is declared as array, but with fewer than 2 elements")
+    else none
+  | none =>
+    if maxEnd ranges > baseDataSize then some (.error "Field requires more bits than the bitfield has") else none
+
+/-- the `FieldDefinition` built at the end of `parse_field` -/
+def mkFieldDef (name : String) (ti : TyInfo) (count : Option Nat) (ps : PState) (docs : Nat) : FieldDef :=
+  let n := sumLens ps.ranges
+  { name := name, ranges := ps.ranges,
+    unsignedFieldType := if ti.isSigned then some (ITy.unsignedOf (ti.fromDT.getD 0)) else none,
+    array := count.map (fun c => (c, strideOf ps n)),
+    fieldTypeSize := fieldTypeSizeOf ti n, getter := ps.provideGetter, setter := ps.provideSetter,
+    fromDataType := ti.fromDT,
+    useRegularInt := (match ti.fromDT with
+      | some i => isIntSizeRegularType i
+      | none => n ≠ 1 && isIntSizeRegularType n),
+    primitiveType := primitiveTypeOf ti n, custom := ti.custom, docs := docs }
+
+/-- the array length literal does not fit `usize` -/
+def countTooLarge : Option Nat → Bool
+  | some c => decide (c ≥ 2 ^ 64)
+  | none => false
+
+/-- `parse_field` -/
+def parseField (resolve : List String → Nat) (baseDataSize : Nat) (f : FieldSyn) : Except Reject FieldDef :=
+  -- `length.parse::<usize>().unwrap_or_else(|_| panic!(…))`
+  if countTooLarge f.count = true then
+    .error (.macroPanic "array length is not a valid number")
+  else match typeInfo resolve f.ty with
+  | .error r => .error r
+  | .ok ti =>
+    match parseAttrs f.count.isSome f.attrs {} 0 with
+    | .error r => .error r
+    | .ok (ps, docs) =>
+      match firstError baseDataSize ti f.count ps with
+      | some r => .error r
+      | none => .ok (mkFieldDef f.name ti f.count ps docs)
 
 end Bb
